@@ -166,6 +166,19 @@ def execute(sc, ctx):
         out.nontrivial = any(s[0] in ('lib', 'mp', 'inst', 'gen', 'taut') for s in recipe['steps'])
     else:
         out.nontrivial = True
+    cap = 25000 if sc.get('_tier') == 'thorough' else 12000
+    try:
+        # size gate first, on a separately built twin and without optimisation: the optimiser's counting pre-pass and the
+        # toolkit's equality modulo notation are far worse than linear in the proof size
+        twin = _p.materialise(dict(sc, recipe=recipe))[0] if recipe is not None else _p.materialise(sc)[0]
+        pfs = SimFS()
+        _p.serialise(twin, pfs, '/sim/probe', 'binary', False)
+        if sum(len(x) for x in pfs.triple('/sim/probe')) > cap:
+            out.event('module too large for this tier: not judged')
+            out.nontrivial = False
+            return out
+    except Exception as e:
+        out.event('twin does not serialise', type(e).__name__)
     try:
         streams, snaps, logs = run_writer(mod, sc['optimize'])
     except Exception as e:
@@ -177,7 +190,7 @@ def execute(sc, ctx):
     if not ok_r1:
         out.event('triple rejected by R1 (C02 territory): round trip not judged')
         return out
-    if sum(len(x) for x in streams) > (60000 if sc.get('_tier') == 'thorough' else 12000):
+    if sum(len(x) for x in streams) > cap:
         out.event('module too large for this tier: not judged')
         out.nontrivial = False
         return out
